@@ -43,6 +43,7 @@ import io
 import json
 import itertools
 import sys
+import urllib.parse
 
 from lxml import etree
 import werkzeug.exceptions
@@ -899,7 +900,8 @@ class WSGIApp:
         if "path" in url_args:
             redirect_url += url_args["path"] + "/"
         if request.query_string:
-            redirect_url += "?" + request.query_string.decode("ascii")
+            # the query string consists of arbitrary bytes: whatever isn't printable ASCII is percent-encoded
+            redirect_url += "?" + urllib.parse.quote_from_bytes(request.query_string, safe="%&=+;/?:@!$'()*,[]")
         return werkzeug.utils.redirect(redirect_url, 307)
 
     # ------ SUBMODEL REPO ROUTES -------
